@@ -162,6 +162,43 @@ theorem parse_complete_partial (fl : Flags) (toks : List Tok) :
     (∀ t, wfType t = true → Matches fl [p .sof, typeV t, p .eof] toks → parseType fl toks = .ok t) :=
   ⟨parseValue_complete fl toks, parseType_complete fl toks⟩
 
+/-! ## the tables re-extracted from `parser.py` are the grammar's
+
+  (`Generated/ParserTables.lean` is rewritten from the source on every run; an edit of a table re-opens these.) -/
+
+private def T (s : String) : Text := s.toList.map Char.toNat
+
+/-- `OperationType : one of query mutation subscription` (the tuple tested by `parse_operation_type`) -/
+theorem operationTypeTuple_spec :
+    Generated.ParserTables.operationTypeTuple = [K.query, K.mutation, K.subscription] := by decide
+
+/-- the dispatch set of `parse_executable_definition` has the same members -/
+theorem operationTypesKeywords_spec :
+    ∀ v, v ∈ Generated.ParserTables.operationTypesKeywords ↔ v ∈ [K.query, K.mutation, K.subscription] := by
+  intro v; simp [Generated.ParserTables.operationTypesKeywords, K.query, K.mutation, K.subscription] <;> grind
+
+/-- `ExecutableDefinition` starts with an operation type or `fragment` -/
+theorem executableDefinitionsKeywords_spec :
+    ∀ v, v ∈ Generated.ParserTables.executableDefinitionsKeywords ↔ v ∈ [K.query, K.mutation, K.subscription, K.fragment] := by
+  intro v
+  simp [Generated.ParserTables.executableDefinitionsKeywords, K.query, K.mutation, K.subscription, K.fragment] <;> grind
+
+/-- `TypeSystemDefinition` keywords -/
+theorem schemaDefinitionsKeywords_spec :
+    ∀ v, v ∈ Generated.ParserTables.schemaDefinitionsKeywords ↔
+      v ∈ [K.schema, K.scalar, K.type_, K.interface_, K.union, K.enum_, K.input, K.directive] := by
+  intro v
+  simp [Generated.ParserTables.schemaDefinitionsKeywords, K.schema, K.scalar, K.type_, K.interface_, K.union, K.enum_,
+    K.input, K.directive] <;> grind
+
+/-- `DirectiveLocation`: the 7 executable locations of June 2018 + `VARIABLE_DEFINITION` (documented extension)
+    + the 11 type-system locations -/
+theorem directiveLocations_spec :
+    Generated.ParserTables.directiveLocations =
+      ["QUERY", "MUTATION", "SUBSCRIPTION", "FIELD", "FRAGMENT_DEFINITION", "FRAGMENT_SPREAD", "INLINE_FRAGMENT",
+       "VARIABLE_DEFINITION", "SCHEMA", "SCALAR", "OBJECT", "FIELD_DEFINITION", "ARGUMENT_DEFINITION", "INTERFACE",
+       "UNION", "ENUM", "ENUM_VALUE", "INPUT_OBJECT", "INPUT_FIELD_DEFINITION"].map T := by decide
+
 /-! ## non-vacuity -/
 
 private def tk (k : TokKind) (s e : Nat) (v : Text := []) : Tok := { kind := k, start := s, stop := e, value := v }
